@@ -3,6 +3,7 @@ package main
 import (
 	"fmt"
 	"go/ast"
+	"golang.org/x/tools/go/ssa"
 	"strings"
 )
 
@@ -59,4 +60,59 @@ func c20Defaults(r *Report) {
 	} else {
 		r.Bad("cli-defaults", d, "cmd/grogu/cmd/run.go", fmt.Sprintf("start %d + offset %d > 100", start, off))
 	}
+}
+
+// NoTimerInLoop: in the given packages no timer is created inside a loop (time.After / time.NewTimer / time.Tick /
+// context.WithTimeout). A timeout armed per iteration never fires while another case of the same select keeps winning:
+// the wait it was meant to bound becomes unbounded (seed C20-10: getTxResponse polled forever, so the deferred release
+// of the in-flight signals never ran).
+func (r *Report) NoTimerInLoop(key string, prefixes []string, minFuncs int) {
+	w := r.W
+	d := "no timeout is (re-)armed inside a loop in " + strings.Join(prefixes, ", ")
+	n := 0
+	for _, fk := range sortedKeys(w.Funcs) {
+		ok := false
+		for _, p := range prefixes {
+			if strings.HasPrefix(fk, p) {
+				ok = true
+			}
+		}
+		fn := w.Funcs[fk]
+		if !ok || len(fn.Blocks) == 0 {
+			continue
+		}
+		n++
+		w.FuncsAnalysed[fn] = true
+		loops := naturalLoops(fn)
+		if len(loops) == 0 {
+			continue
+		}
+		for _, b := range fn.Blocks {
+			inLoop := false
+			for _, l := range loops {
+				if l[b] {
+					inLoop = true
+				}
+			}
+			if !inLoop {
+				continue
+			}
+			for _, in := range b.Instrs {
+				ci, isCall := in.(ssa.CallInstruction)
+				if !isCall {
+					continue
+				}
+				switch CalleeName(ci.Common()) {
+				case "time.After", "time.NewTimer", "time.Tick", "time.AfterFunc", "context.WithTimeout", "context.WithDeadline":
+					w.SitesExamined++
+					r.Bad(key+"|"+fk+"|"+CalleeName(ci.Common()), d, w.posOr(ci.Pos(), fn), CalleeName(ci.Common())+" is called inside a loop of "+fk+": the timeout restarts on every iteration and cannot bound the loop")
+				}
+			}
+		}
+	}
+	if n < minFuncs {
+		r.Unres(key+"|count", d, fmt.Sprintf("%d functions examined, expected >= %d", n, minFuncs))
+		return
+	}
+	r.OK(key, d, "-", fmt.Sprintf("%d functions examined", n))
 }
